@@ -144,3 +144,174 @@ def killed_workload(template_db, policies, sends, kill_after_s, workdir=None):
     _, status = os.waitpid(pid, 0)
     code = os.WEXITSTATUS(status) if os.WIFEXITED(status) else -os.WTERMSIG(status)
     return db, d, data.count(b"A"), code
+
+
+# ------------------------------------------------------------------ death at a chosen system call
+# SQLite does its file I/O in C; the only place where "the process dies between two writes of one
+# COMMIT" can be produced deterministically is the system-call boundary.  strace (ptrace) attaches
+# to the forked child and delivers SIGKILL when the k-th call of one system call that touches the
+# database file, its journal / WAL files or the directory is entered.
+SYSCALLS = ("pwrite64", "write", "pwritev", "writev", "fsync", "fdatasync", "ftruncate", "unlink",
+            "unlinkat", "rename", "renameat", "renameat2")
+_strace = {}
+
+
+def _paths(db):
+    d = os.path.dirname(db)
+    return [db, db + "-journal", db + "-wal", db + "-shm", d]
+
+
+def _attach(pid, db, out, inject):
+    import subprocess
+    args = ["strace", "-p", str(pid), "-e", "trace=" + ",".join(SYSCALLS), "-o", out]
+    for p in _paths(db):
+        args += ["-P", p]
+    if inject is not None:
+        args += ["-e", "inject=%s:signal=KILL:when=%d" % inject]
+    p = subprocess.Popen(args, stdout=subprocess.DEVNULL, stderr=subprocess.DEVNULL)
+    t0 = time.time()
+    while True:
+        try:
+            with open("/proc/%d/status" % pid) as f:
+                s = f.read()
+        except OSError:
+            s = ""
+        if s and "TracerPid:\t0\n" not in s:
+            return p
+        if p.poll() is not None or time.time() - t0 > 10:
+            try:
+                p.kill()
+            except OSError:
+                pass
+            return None
+        time.sleep(0.0005)
+
+
+def strace_available():
+    """Can strace attach to a forked child and kill it at a chosen system call here?  (cached)"""
+    if "ok" in _strace:
+        return _strace["ok"], _strace.get("why", "")
+    ok, why = False, ""
+    d = tempfile.mkdtemp(prefix="vsys-")
+    try:
+        if shutil.which("strace") is None:
+            why = "strace is not installed"
+        else:
+            f = os.path.join(d, "probe.db")
+            open(f, "wb").close()
+            r, w = os.pipe()
+            pid = os.fork()
+            if pid == 0:
+                try:
+                    os.close(w)
+                    os.read(r, 1)
+                    fd = os.open(f, os.O_WRONLY)
+                    os.pwrite(fd, b"x", 0)
+                    os.pwrite(fd, b"y", 1)
+                finally:
+                    os._exit(0)
+            os.close(r)
+            p = _attach(pid, f, os.path.join(d, "trace"), ("pwrite64", 2))
+            os.write(w, b"g")
+            os.close(w)
+            _, status = os.waitpid(pid, 0)
+            if p is not None:
+                p.wait()
+            with open(f, "rb") as fh:
+                data = fh.read()
+            if p is None:
+                why = "strace cannot attach to a forked child (ptrace not permitted)"
+            elif not os.WIFSIGNALED(status) or data not in (b"x", b"xy"):
+                why = "strace did not deliver the kill at the chosen call (status %r)" % status
+            else:
+                ok = True
+    except Exception as e:
+        why = "probe failed: %r" % (e,)
+    finally:
+        shutil.rmtree(d, ignore_errors=True)
+    _strace["ok"], _strace["why"] = ok, why
+    return ok, why
+
+
+def syscall_run(template_db, policies, send, inject=None, workdir=None):
+    """Fork a child that opens the engine on a private copy of the database and runs send(server)
+    under strace; inject = (syscall name, k): SIGKILL on entering the k-th such call on the
+    database files, None: trace only.  Returns (db, dir, info) with info = {acked, ack, exit,
+    killed, calls: {syscall: count}} (calls only for trace-only runs)."""
+    d = tempfile.mkdtemp(prefix="vsys-", dir=workdir)
+    db = os.path.join(d, "kmip.db")
+    shutil.copyfile(template_db, db)
+    trace = os.path.join(d, "strace.out")
+    go_r, go_w = os.pipe()
+    rfd, wfd = os.pipe()
+    pid = os.fork()
+    if pid == 0:
+        code = 1
+        try:
+            os.close(rfd)
+            os.close(go_w)
+            srv = H.Server(policies=policies, db=db)
+            os.write(wfd, b"R")
+            os.read(go_r, 1)
+            out = send(srv)
+            os.write(wfd, json.dumps(out, default=repr).encode())
+            code = 0
+        except BaseException as e:
+            try:
+                os.write(wfd, json.dumps({"child_error": repr(e)}).encode())
+            except Exception:
+                pass
+            code = 3
+        finally:
+            os._exit(code)
+    os.close(wfd)
+    os.close(go_r)
+    first = os.read(rfd, 1)
+    p = _attach(pid, db, trace, inject) if first == b"R" else None
+    try:
+        os.write(go_w, b"g")
+    except OSError:
+        pass
+    os.close(go_w)
+    chunks = []
+    while True:
+        b = os.read(rfd, 65536)
+        if not b:
+            break
+        chunks.append(b)
+    os.close(rfd)
+    _, status = os.waitpid(pid, 0)
+    if p is not None:
+        try:
+            p.wait(timeout=20)
+        except Exception:
+            p.kill()
+    code = os.WEXITSTATUS(status) if os.WIFEXITED(status) else -os.WTERMSIG(status)
+    data = b"".join(chunks)
+    ack = None
+    if data:
+        try:
+            ack = json.loads(data.decode())
+        except Exception:
+            ack = {"child_error": "garbled pipe"}
+    info = {"acked": ack is not None and "child_error" not in (ack or {}), "ack": ack, "exit": code,
+            "killed": code == -signal.SIGKILL, "attached": p is not None}
+    if inject is None:
+        calls = {}
+        order = []
+        try:
+            with open(trace) as f:
+                for line in f:
+                    name = line.split("(", 1)[0].split()[-1] if "(" in line else ""
+                    if name in SYSCALLS:
+                        calls[name] = calls.get(name, 0) + 1
+                        order.append(name)
+        except OSError:
+            pass
+        info["calls"] = calls
+        info["order"] = order
+    try:
+        os.remove(trace)
+    except OSError:
+        pass
+    return db, d, info
